@@ -31,7 +31,9 @@ RULE = (
     "refusals all occur; policies: None, [] and every non-empty sublist of add/remove/change, some reordered. "
     "the merge() stream draws its universe mostly from directory/sibling pairs whose name is the directory name "
     "continued by a character below '/' (data/x with data.csv, p/raw/2021/f with p/raw-2020/f, a/f with 'a b', ...), on "
-    "which key-tuple order and canonical relpath-string order differ. "
+    "which key-tuple order and canonical relpath-string order differ, and from names on which a careless relpath<->key "
+    "conversion collapses entries (hidden .gitkeep / .config/settings / ..data, .env next to env, leading or trailing "
+    "blanks and dots, case and Unicode-normalisation twins). "
     "quick: seeded samples of all streams + a sample of sweep rows; thorough: additionally on _merge ALL triples "
     "over 3 keys x (absent + 3 values) under add+remove+change (+ 2000 sampled rows under the other policies), ALL "
     "triples over 3 keys x (absent + 2 values) x 9 policies, ALL triples over 2 keys x (absent + 3 real values) x 9 "
@@ -635,14 +637,42 @@ TREE_SIBLINGS = [
 ]
 
 
+# Names on which a careless relpath <-> key conversion (strip / lstrip / normpath / case or Unicode
+# folding) loses or merges entries: hidden files and directories, leading / trailing dots and blanks,
+# names that differ only by such a prefix, by case or by Unicode normalisation form.  Each group is
+# drawn as a whole, so that the colliding partner is part of the same listing.
+TREE_EDGE = [
+    [(".gitkeep",)],
+    [(".config", "settings")],
+    [("..data",)],
+    [(".env",), ("env",)],
+    [(".d", ".e"), ("d", "e")],
+    [("...",), ("d", ".hidden")],
+    [(" lead",), ("lead",)],
+    [("trail ",), ("trail.",), ("trail",)],
+    [("Readme",), ("readme",)],
+    [("\u00e9x",), ("e\u0301x",)],
+    [("", "rooted"), ("rooted",)],
+    [("~tmp",), ("#x#",), ("-opt",)],
+]
+
+
 def gen_tree_universe(rng):
     r = rng.random()
-    if r < 0.35:
+    if r < 0.25:
         return rng.sample(TREE_KEYS, rng.randint(1, 4))
-    pairs = rng.sample(TREE_SIBLINGS, 1 if r < 0.8 else 2)
-    ks = [k for pr in pairs for k in pr]
-    extra = [k for k in TREE_KEYS if k not in ks and k != ("a",) and k != ("d",)]
-    ks += rng.sample(extra, rng.randint(0, 5 - len(ks)) if len(ks) < 5 else 0)
+    if r < 0.6:
+        groups = [list(pr) for pr in rng.sample(TREE_SIBLINGS, 1 if r < 0.5 else 2)]
+    elif r < 0.9:
+        groups = rng.sample(TREE_EDGE, rng.randint(1, 2))
+    else:
+        groups = [list(rng.choice(TREE_SIBLINGS))] + rng.sample(TREE_EDGE, 1)
+    ks = []
+    for g in groups:
+        ks += [k for k in g if k not in ks]
+    extra = [k for k in TREE_KEYS if k not in ks and k not in (("a",), ("d",))]
+    if len(ks) < 5:
+        ks += rng.sample(extra, rng.randint(0, min(len(extra), 5 - len(ks))))
     rng.shuffle(ks)
     return ks
 
@@ -818,6 +848,15 @@ TREE_CORPUS = [
     # no ancestor
     {"stream": "tree", "mode": "md5", "keys": [("s", "t", "u"), ("s", "t!", "u")], "a": None, "o": [1, 0], "t": [0, 2],
      "pol": ["add"]},
+    # hidden entries: a relpath starting with '.', alone and next to the same name without the dot
+    {"stream": "tree", "mode": "md5", "keys": [(".gitkeep",), ("a",)], "a": [1, 0], "o": [1, 0], "t": [1, 2],
+     "pol": None},
+    {"stream": "tree", "mode": "md5", "keys": [(".env",), ("env",), (".config", "settings")], "a": [1, 2, 0],
+     "o": [1, 2, 3], "t": [1, 0, 0], "pol": ["add", "remove"]},
+    {"stream": "tree", "mode": "md5-dos2unix", "keys": [("..data",), ("d", ".hidden"), ("data",)], "a": [1, 0, 3],
+     "o": [2, 0, 3], "t": [1, 4, 3], "pol": ["add", "change"]},
+    {"stream": "tree", "mode": "md5", "keys": [("trail ",), ("trail.",), ("trail",), (" lead",)], "a": [1, 2, 3, 0],
+     "o": [1, 2, 3, 1], "t": [0, 2, 3, 0], "pol": ["add", "remove"]},
 ]
 
 
